@@ -849,6 +849,13 @@ def rekey(ctx, chk):
             ok = False
             why = ''
             if isinstance(v, CollV) and v.known == () and src is None:
+                # an empty row standing for a source row that was looked up and found absent
+                # (`old.get(&y).cloned().unwrap_or_default()`): the source is that key
+                evs_here = st.event_list()
+                absent_keys = [e2[3] for e2 in evs_here if e2[0] == 'branch' and e2[1] == 'map.get.none' and e2[2] == ('S', 'buffer')]
+                if absent_keys and isinstance(absent_keys[-1], NumV) and isinstance(getattr(v, 'prov', None), tuple) and v.prov and v.prov[0] == 'default':
+                    src = absent_keys[-1]
+            if isinstance(v, CollV) and v.known == () and src is None:
                 vac = bottom if meth == 'index' else top
                 ok = eng.prove_cmp(st, 'eq', key, vac) is True
                 why = 'blank row stored at %s (documented: at the vacated %s margin row)' % (g.term(eng, st, key), 'bottom' if meth == 'index' else 'top')
